@@ -3,9 +3,9 @@
 (* Events (field ev): New, AddFace, SetQuery, SetScript, SetCache,   *)
 (* Resolve (r, got = 1-based index of the returned face in insertion order, 0 = nil,          *)
 (* -1 = panic; fresh = the same on a freshly built map with the same fonts/query/script;      *)
-(* plain = fact from the library's substitution tables: the expanded family list of the query  *)
-(* names no family of the map beyond the queried ones and no generic keyword - the documented  *)
-(* priority (FontMap.tla) is specified for that case only).                                    *)
+(* crible, gen = facts from the library's substitution tables (expanded family lists of the    *)
+(* query and of its generic keywords, restricted to the families of the map); FontMap.tla       *)
+(* specifies how the priority uses them.                                                        *)
 EXTENDS FontMap, TLC, Json, IOUtils
 VARIABLES l, db, query, script, memo, fails, stats
 Trace == ndJsonDeserialize(IOEnv.VERIF_TRACE)
@@ -20,7 +20,7 @@ New == /\ Ev("New") /\ db' = << >> /\ query' = NoQuery /\ script' = "none" /\ me
        /\ stats' = [stats EXCEPT !.hist = @ + 1, !.changed = FALSE, !.seen = {}] /\ UNCHANGED fails /\ l' = l + 1
 AddFace == /\ Ev("AddFace")
            /\ LET e == Trace[l] IN
-              db' = Append(db, [fam |-> e.fam, asp |-> Desired(e.asp), runes |-> SeqToSet(e.runes), scripts |-> SeqToSet(e.scripts), ttf |-> e.ttf])
+              db' = Append(db, [fam |-> e.fam, asp |-> Desired(e.asp), runes |-> SeqToSet(e.runes), scripts |-> SeqToSet(e.scripts), ttf |-> e.ttf, mono |-> e.mono])
            /\ stats' = [stats EXCEPT !.changed = TRUE]
            /\ UNCHANGED <<query, script, memo, fails>> /\ l' = l + 1
 SetQuery == /\ Ev("SetQuery") /\ query' = [fams |-> Trace[l].fams, asp |-> Trace[l].asp]
@@ -35,10 +35,12 @@ Resolve ==
   /\ Ev("Resolve")
   /\ LET e == Trace[l]
          key == <<Len(db), query, script, e.r>>
-         allowed == IF Len(db) = 0 THEN {0} ELSE Allowed(db, query, script, e.r)
+         cr == {<< e.crible[i][1], e.crible[i][2], e.crible[i][3] >> : i \in DOMAIN e.crible}
+         gen == {<< e.gen[i][1], {<< e.gen[i][2][k][1], e.gen[i][2][k][2], e.gen[i][2][k][3] >> : k \in DOMAIN e.gen[i][2]} >> : i \in DOMAIN e.gen}
+         allowed == IF Len(db) = 0 THEN {0} ELSE AllowedC(db, query, script, cr, gen, e.r)
          bad == (IF e.got = -1 THEN {"Total"} ELSE {})
                 \cup (IF Len(db) > 0 /\ e.got = 0 THEN {"NonNil"} ELSE {})
-                \cup (IF e.plain /\ e.got >= 0 /\ e.got \notin allowed THEN {"Priority"} ELSE {})
+                \cup (IF e.got >= 0 /\ e.got \notin allowed THEN {"Priority"} ELSE {})
                 \cup (IF \E m \in memo : m[1] = key /\ m[2] # e.got THEN {"Functional"} ELSE {})
                 \cup (IF e.fresh # e.got THEN {"FreshEq"} ELSE {})
      IN /\ fails' = fails \cup {[line |-> l, pred |-> b] : b \in bad}
